@@ -10,7 +10,7 @@ from concurrent.futures import ThreadPoolExecutor
 VERIF = os.path.dirname(os.path.dirname(os.path.abspath(__file__)))
 HARNESS = os.environ.get("VERIF_HARNESS") or os.path.join(VERIF, "harness")  # VERIF_HARNESS: frozen copy for long dev runs
 BUILD = os.path.join(VERIF, ".build")
-LOGS = os.path.join(BUILD, "logs")
+LOGS_ROOT = os.path.join(BUILD, "logs")
 REPLAYS = os.path.join(VERIF, "replays")
 EVIDENCE = os.path.join(VERIF, "evidence")
 KNOWN = os.path.join(VERIF, "known_findings.txt")
@@ -31,6 +31,13 @@ def crate_dir():
     else:
         name = "crate-" + hashlib.sha1((r + "|" + HARNESS).encode()).hexdigest()[:10]
     return os.path.join(BUILD, name)
+
+
+def logs_dir():
+    """Per (repository copy, harness copy) log directory: concurrent runs never share a log file."""
+    d = os.path.join(LOGS_ROOT, os.path.basename(crate_dir()))
+    os.makedirs(d, exist_ok=True)
+    return d
 
 
 def target_dir(worker=0):
@@ -73,7 +80,7 @@ def gen_manifest():
     """(Re)write harness/Cargo.toml with path dependencies on the repository's working tree."""
     with _gen_lock:
         os.makedirs(BUILD, exist_ok=True)
-        os.makedirs(LOGS, exist_ok=True)
+        os.makedirs(LOGS_ROOT, exist_ok=True)
         cd = crate_dir()
         os.makedirs(cd, exist_ok=True)
         tpl = open(os.path.join(HARNESS, "Cargo.toml.in")).read()
@@ -317,7 +324,7 @@ def classify(pr, status):
 
 def run_harness(mod, name, timeout_s, mem_gb, tag="", worker=0):
     full = f"{mod}::{name}"
-    log = os.path.join(LOGS, f"{mod}-{name}{tag}.log")
+    log = os.path.join(logs_dir(), f"{mod}-{name}{tag}.log")
     rc, status, wall, peak = run_cmd_watch(kani_cmd(full), log, timeout_s, mem_gb, env=base_env(worker))
     clean_goto_outputs(worker)
     pr = parse_log(log)
@@ -375,7 +382,7 @@ TEST_RE = re.compile(r"```\s*\n(?P<body>.*?#\[test\].*?)```", re.S)
 def extract_playback(mod, name, timeout_s, mem_gb):
     """Re-run a failing harness with concrete playback; return the generated unit test text or None."""
     full = f"{mod}::{name}"
-    log = os.path.join(LOGS, f"{mod}-{name}-playback.log")
+    log = os.path.join(logs_dir(), f"{mod}-{name}-playback.log")
     rc, status, wall, peak = run_cmd_watch(kani_cmd(full, playback=True), log, timeout_s, mem_gb, env=base_env("pb"))
     txt = open(log, errors="replace").read()
     # one ``` block per failed check AND per satisfied cover, in no fixed order: take the first block
@@ -420,7 +427,7 @@ def run_replay_file(path, release=False, timeout_s=1800):
     gen = os.path.join(HARNESS, "src", "replay_gen.rs")
     with _gen_lock:
         open(gen, "w").write(f"#[cfg(test)]\nmod replay_gen {{\n    use crate::{mod}::*;\n{body}\n}}\n")
-    log = os.path.join(LOGS, f"replay-{os.path.basename(path)}{'-release' if release else ''}.log")
+    log = os.path.join(logs_dir(), f"replay-{os.path.basename(path)}{'-release' if release else ''}.log")
     env = base_env("replay-rel" if release else "replay")
     cmd = ["cargo", "kani", "playback", "-Z", "concrete-playback", "--no-default-features", "-F", mod]
     if release:
